@@ -46,6 +46,43 @@ MandatoryKeys(shape) ==
 PopulateOK(shape, ks) == MandatoryKeys(shape) \subseteq ks
 
 (***************************************************************************)
+(* Part 1b - discovery of the profile field (GetProfileJSONTag), used when *)
+(* a profile is registered.  Fields here carry: name (Go field name),      *)
+(* cborKey (the text of the cbor tag's key, "" when there is no cbor tag), *)
+(* hasJson / jsonName.  Among a struct's own fields the first one whose    *)
+(* cbor key is "265" or "-75000" wins; failing that a field named Profile  *)
+(* WITHOUT cbor tag; failing that the embedded structs are searched in     *)
+(* order.  A profile field without json tag is an error; no profile field  *)
+(* anywhere is the "no profile" error (registration must fail).            *)
+(***************************************************************************)
+TagRes(ok, tag) == [ok |-> ok, tag |-> tag]
+RECURSIVE ProfileTag(_)
+ProfileTag(shape) ==
+  LET own == SelectSeq(shape, LAMBDA f : f.kind = "field")
+      byKey == SelectSeq(own, LAMBDA f : f.cborKey \in {"265", "-75000"})
+      byName == SelectSeq(own, LAMBDA f : f.cborKey = "" /\ ~f.hasCbor /\ f.name = "Profile")
+      embeds == SelectSeq(shape, LAMBDA f : f.kind = "embed" /\ ~f.nilIface)
+      RECURSIVE First(_)
+      First(es) == IF es = <<>> THEN TagRes(FALSE, "noprofile")
+                   ELSE LET r == ProfileTag(Head(es).sub) IN
+                        IF r.ok \/ r.tag # "noprofile" THEN r ELSE First(Tail(es))
+      pick(f) == IF f.hasJson THEN TagRes(TRUE, f.jsonName) ELSE TagRes(FALSE, "nojson")
+  IN IF byKey # <<>> THEN pick(byKey[1])
+     ELSE IF byName # <<>> THEN pick(byName[Len(byName)])
+     ELSE First(embeds)
+
+(***************************************************************************)
+(* Part 1c - the ordered field map of the JSON codec (structFieldsJSON):   *)
+(* Keys (a Go slice: backing array + length) and Fields (a map).  Delete   *)
+(* as the pinned code wrote it removes entries from the slice it is        *)
+(* ranging over; MC_JsonKeys shows that with a repeated key (a JSON object *)
+(* with a duplicate member) it indexes past the shrunken slice (defect D3) *)
+(* and that the repaired Delete keeps Keys and Fields in agreement.        *)
+(***************************************************************************)
+\* the repaired Delete: every occurrence goes
+DeleteKeys(keys, k) == SelectSeq(keys, LAMBDA x : x # k)
+
+(***************************************************************************)
 (* Part 2 - structFieldsCBOR.FromCBOR + processAdditionalInfo as a cursor  *)
 (* machine over the input bytes.  Decoding of the individual key / value   *)
 (* items is delegated to the CBOR library; the machine takes it as an      *)
